@@ -311,6 +311,38 @@ def run(ctx):
     probe = sesslib.Probe(work)
     lines, impls = [], []
     try:
+        # ---- exhaustive at session granularity: every order of `depth` sessions over two long-lived collection
+        # objects (bufsize 10^6 and -1), each session of every kind x fault
+        import itertools
+        types = []
+        for c, b in ((0, 1_000_000), (1, -1)):
+            for kind in sesslib.KINDS:
+                for fault in sesslib.FAULTS:
+                    if fault == "atFlush" and (kind == "reading" or b != 1_000_000):
+                        continue
+                    types.append((c, kind, fault))
+        depth = 2 if ctx.quick() else 3
+        nex = 0
+        for combo in itertools.product(types, repeat=depth):
+            bufs = [1_000_000, -1]
+            script, used = [], 0
+            for (c, kind, fault) in combo:
+                puts = []
+                if kind == "writing":
+                    puts = [(f"e{used + 1}", b"x"), (f"e{used + 2}", b"")]
+                    used += 2
+                script.append((c, kind, fault, puts, 1))
+            tag = [[c, k, f, [[a, hx(b)] for a, b in p], cut] for c, k, f, p, cut in script]
+            toks = run_script(ctx, probe, work / f"ex{nex}.ukv", bufs, script, tag)
+            (work / f"ex{nex}.ukv").unlink(missing_ok=True)
+            lines.append(model_lines(bufs, script))
+            impls.append((toks, bufs, tag))
+            ctx.case(json.dumps([bufs, tag]), any(s[2] != "none" for s in script[:-1]))
+            nex += 1
+            if nex % 100 == 0:
+                ctx.check_deadline()
+        ctx.count("exhaustive_session_orders", nex)
+        ctx.extra_cov["exhaustive_session_depth"] = depth
         nscripts = 40 if ctx.quick() else 600
         for n in range(nscripts):
             ncols = ctx.rng.range(1, 3)
